@@ -36,6 +36,10 @@ func runC18(c *Ctx) {
 	extras := []int{0, 1, 2, 254, 255, 256, 257, 300}
 	done := 0 // messages that got past the generator's filter: the directed cases below must not depend on its luck
 	for i := 0; i < n; i++ {
+		// the library reads the clock itself: the windows below are laid around the time of this iteration, not of the
+		// start of the run (the thorough tier runs longer than the 100 s margins: a window that lay in the future at the
+		// start had begun by the time it was tested — a false alarm of this check, see DESIGN.md)
+		now = uint32(time.Now().Unix())
 		g := genMsg(r, msgOpts{mode: r.Intn(2), pool: r.Chance(70), maxAn: 3, maxNs: 2, maxEx: 2, optPct: 30})
 		m, err := unpackGen(g)
 		if err != nil || hasType(m, dns.TypeSIG) || hasType(m, dns.TypeTSIG) {
@@ -262,6 +266,7 @@ func runC18(c *Ctx) {
 		}
 	}
 	_ = crypto.SHA1
+	now = uint32(time.Now().Unix())
 	// a message far beyond 64 KiB uncompressed that compression brings well below it: it can be signed, and verifies
 	{
 		k := keys[dns.ED25519]
